@@ -583,3 +583,38 @@ reg(P("C05", "format", "c05",
                                  "is produced by the reader's chunking"],
       sig_fn=_c05_sig, mutate=_fmt_mutate_c05, design_ref="DESIGN.md §6 C05",
       technique="TLC model checking of DecoderBuf.tla (transcribed refill loop, all streams x chunk patterns) + TLC comparison of streamed and contiguous outcomes of the real decoder"))
+
+
+def _c06_sig(reset, event):
+    f = reset.get("facts", {})
+    dest = reset.get("dest", "")
+    fits = f.get("fits", {})
+    ev = event or {}
+    outcome = "panic" if ev.get("panic", "none") != "none" else ("error" if ev.get("err", "none") != "none" else "value")
+    return {"form": reset.get("form"), "dest": dest, "pos": ev.get("pos"), "outcome": outcome,
+            "overflow": bool(dest in fits and not fits[dest]), "canary": ev.get("canary", True), "fault": ev.get("fault", "none") != "none"}
+
+
+def _c06_mutate(rec):
+    if rec.get("ev") == "pos" and rec.get("err") == "none" and rec.get("out", {}).get("root", {}).get("k") == "int":
+        rec["out"]["root"]["v"] = rec["out"]["root"]["v"] + "0"
+        return rec
+    return None
+
+
+reg(P("C06", "format", "c06",
+      mc={"quick": [("FormatSelf", "FormatSelf.cfg", 600)], "thorough": [("FormatSelf", "FormatSelf.cfg", 1500)]},
+      traces=[("", "FormatTraceC06", "FormatTraceC06.cfg")],
+      level="model_checking",
+      rule="cases = 69 token forms written by the harness (long-form and boundary integers, integral / fractional / "
+           "special reals, one-character and empty strings in both spellings, digit / float / guid text, bytes, the "
+           "date and time forms, guid, lists, maps, back-references to strings and bytes, objects with exact, "
+           "reordered, missing, extra fields, unknown class, map standing for an object) x 32 destination types x 8 "
+           "positions (top level, Decoder.Read, struct field, pointer field, slice element, map value, behind one and "
+           "two pointers); a case is a (form, destination) cell; every cell is non-trivial",
+      assumptions=_FMT_ASSUME + ["facts about a token (fits which width, exactly representable as float32/64, decimal text) are "
+                                 "computed by the harness with math/big, independently of the library",
+                                 "conversions the property does not pin down are marked unspecified in FormatConv.tla and only "
+                                 "checked for crashes, the canary and consistency across positions"],
+      sig_fn=_c06_sig, mutate=_c06_mutate, design_ref="DESIGN.md §6 C06",
+      technique="TLC parses each hand-written stream with the HproseFormat recogniser, derives the required outcome from the FormatConv conversion matrix and judges the real decoder's outcome at every position"))
